@@ -4,7 +4,7 @@
 // an ndjson trace validated by spec/CtxLifecycleTrace.tla:
 //
 //	Case{...}  Acquire{conn,obj,ptr}  Mutate{conn,m}  Ending{conn,kind}  EndRequest{conn}  Probe{conn,obj,dirty}
-//	EndConn{conn}  Release{conn,obj}  Touched{m,comps}  Known{m}  Uncovered{type,method}  Panic{msg}  End
+//	EndConn{conn}  Release{conn,obj}  Touched{m,comps}  Known{m}  Uncovered{type,method}  Panic{msg}  Hang{where}  End
 //
 // Context histories are served through the production path: a real route.Engine (vnet.NewEngine) with the recovery
 // middleware, scripted in-memory connections (vnet.Conn) served by Engine.Serve.  The probe handler dumps every
@@ -26,6 +26,7 @@ import (
 	"strings"
 	"sync"
 	"sync/atomic"
+	"time"
 	"unsafe"
 
 	"github.com/cloudwego/hertz/pkg/app"
@@ -122,10 +123,13 @@ type worker struct {
 	files string
 	refs  map[cfgKey]*ref
 	stats *counters
+	cur   atomic.Value // *run: the history being run (read by the watchdog)
+	idx   int64        // index of that history in the case list
+	t0    int64        // when it started (unix nanoseconds)
 }
 
 type counters struct {
-	probes, recycled, dirty, fallback int64
+	probes, recycled, dirty, fallback, hangs int64
 }
 
 // run is the state of one case.
@@ -138,18 +142,28 @@ type run struct {
 	keep    []interface{}
 	mutated map[int]bool
 	cur     *connState // connection being served when the engine is given context.Background()
-	refMode *ref       // when set, the probe handler records the reference instead of diffing
+	dead    int32      // set by the watchdog: the goroutine running this history is stuck, its events are dropped
+	phase   atomic.Value
+	refMode *ref // when set, the probe handler records the reference instead of diffing
 }
 
 func (r *run) emit(ev string, rec vtrace.Rec) {
 	r.emu.Lock()
-	r.w.tr.Emit(ev, rec)
+	if atomic.LoadInt32(&r.dead) == 0 {
+		r.w.tr.Emit(ev, rec)
+	}
 	r.emu.Unlock()
 }
+
+func (r *run) setPhase(p string) { r.phase.Store(p) }
 
 // emitProbe writes the Probe line and one Dirty line per differing component, contiguously.
 func (r *run) emitProbe(conn, obj int, dirty []string, recycled bool) {
 	r.emu.Lock()
+	if atomic.LoadInt32(&r.dead) != 0 {
+		r.emu.Unlock()
+		return
+	}
 	r.w.tr.Emit("Probe", vtrace.Rec{"conn": conn, "obj": obj, "dirty": dirty, "recycled": recycled})
 	for _, c := range dirty {
 		r.w.tr.Emit("Dirty", vtrace.Rec{"conn": conn, "obj": obj, "comp": c})
@@ -221,6 +235,8 @@ func (r *run) warmH(c context.Context, ctx *app.RequestContext) {
 
 func (r *run) mutH(c context.Context, ctx *app.RequestContext) {
 	st := r.enter(c, ctx)
+	r.setPhase("mutate")
+	defer r.setPhase("")
 	var muts []string
 	ending := "return"
 	if st.nmut < len(st.muts) {
@@ -255,11 +271,15 @@ func (r *run) mutH(c context.Context, ctx *app.RequestContext) {
 func (r *run) probeH(c context.Context, ctx *app.RequestContext) {
 	if r.refMode != nil {
 		r.refMode.d = dumpCtx(ctx)
+		probeLocks(ctx)
 		ctx.SetBodyString("probe-ok")
 		return
 	}
 	st := r.enter(c, ctx)
+	r.setPhase("probe")
+	defer r.setPhase("")
 	d := dumpCtx(ctx)
+	probeLocks(ctx)
 	rf := r.w.reference(cfgKey{r.c.Trace, r.idle(), st.probe})
 	st.pending = &probeRec{obj: st.obj, dirty: diff(d, rf.d)}
 	st.off = len(st.conn.Out)
@@ -274,6 +294,17 @@ func (r *run) idle() string {
 		return "poller"
 	}
 	return "inloop"
+}
+
+// probeLocks uses the write and read paths of the context's lock-protected stores (Keys under ctx.mu, the finished
+// channel under finishedMu).  A lock that an earlier use of the object left held blocks here for ever; the watchdog
+// of the worker turns that into a Hang event (there is no spec action for it).  Called after the dump.
+func probeLocks(ctx *app.RequestContext) {
+	ctx.Set("c09-lockprobe", 1)
+	ctx.Get("c09-lockprobe")
+	ctx.ForEachKey(func(string, interface{}) {})
+	_ = ctx.Value("c09-lockprobe")
+	ctx.Finished()
 }
 
 // wireOf canonicalises one response found at the start of b (status, header lines without Date, body).
@@ -390,6 +421,8 @@ func caseRec(c *Case) vtrace.Rec {
 
 func (w *worker) runCase(c *Case) {
 	r := &run{w: w, c: c, objs: map[uintptr]int{}, mutated: map[int]bool{}}
+	r.setPhase("")
+	w.cur.Store(r)
 	r.emit("Case", caseRec(c))
 	func() {
 		defer func() {
@@ -682,6 +715,8 @@ func main() {
 	out := flag.String("out", "", "output directory for trace chunks")
 	chunks := flag.Int("chunks", 16, "number of trace files / parallel workers")
 	scratch := flag.String("scratch", "", "directory for the small files some mutators serve")
+	hangSeq := flag.Duration("hang", 5*time.Second, "watchdog limit for one sequential history")
+	hangConc := flag.Duration("hangconc", 90*time.Second, "watchdog limit for one concurrent history")
 	list := flag.Bool("list", false, "print the mutator table as JSON and exit")
 	obs := flag.Bool("obs", false, "print the observable components per object kind as JSON and exit")
 	flag.Parse()
@@ -752,22 +787,72 @@ func main() {
 		wg.Add(1)
 		go func(k int) {
 			defer wg.Done()
-			// one OS thread per worker: the context released at the end of a connection sits in this P's pool
-			// slot when the next connection of the case asks for one
-			runtime.LockOSThread()
 			tr, err := vtrace.Create(filepath.Join(*out, fmt.Sprintf("trace_%03d.ndjson", k)))
 			if err != nil {
 				panic(err)
 			}
-			w := &worker{tr: tr, files: *scratch, refs: map[cfgKey]*ref{}, stats: st}
 			lo, hi := len(all)*k/n, len(all)*(k+1)/n
-			for _, c := range all[lo:hi] {
-				w.runCase(c)
+			// The histories of the chunk run one after the other on a worker goroutine; this goroutine is its
+			// watchdog.  A history that makes no progress for `limit` (a call blocked for ever on a lock that an
+			// earlier use of a recycled object left held, ...) is recorded as Hang{where} + End, its goroutine is
+			// abandoned and a new worker goes on with the next history.
+			for next := lo; next < hi; {
+				w := &worker{tr: tr, files: *scratch, refs: map[cfgKey]*ref{}, stats: st}
+				done := make(chan struct{})
+				atomic.StoreInt64(&w.idx, int64(next))
+				atomic.StoreInt64(&w.t0, time.Now().UnixNano())
+				go func(from int) {
+					defer close(done)
+					// one OS thread per worker: the context released at the end of a connection sits in this P's
+					// pool slot when the next connection of the case asks for one
+					runtime.LockOSThread()
+					for i := from; i < hi; i++ {
+						atomic.StoreInt64(&w.idx, int64(i))
+						atomic.StoreInt64(&w.t0, time.Now().UnixNano())
+						w.runCase(all[i])
+						if r, _ := w.cur.Load().(*run); r != nil && atomic.LoadInt32(&r.dead) != 0 {
+							return // the watchdog gave this history up while it was (slowly) finishing: a new worker took over
+						}
+					}
+				}(next)
+				tick := time.NewTicker(50 * time.Millisecond)
+			watch:
+				for {
+					select {
+					case <-done:
+						next = hi
+						break watch
+					case <-tick.C:
+						i := int(atomic.LoadInt64(&w.idx))
+						limit := *hangSeq
+						if all[i].Kind == "conc" {
+							limit = *hangConc
+						}
+						r, _ := w.cur.Load().(*run)
+						if r == nil || r.c != all[i] || time.Since(time.Unix(0, atomic.LoadInt64(&w.t0))) < limit {
+							continue
+						}
+						r.emu.Lock()
+						if i != int(atomic.LoadInt64(&w.idx)) { // it moved on in the meantime
+							r.emu.Unlock()
+							continue
+						}
+						atomic.StoreInt32(&r.dead, 1)
+						where, _ := r.phase.Load().(string)
+						tr.Emit("Hang", vtrace.Rec{"where": where, "after_s": int(limit.Seconds())})
+						tr.Emit("End", nil)
+						r.emu.Unlock()
+						atomic.AddInt64(&st.hangs, 1)
+						next = i + 1
+						break watch
+					}
+				}
+				tick.Stop()
 			}
 			tr.Close()
 		}(k)
 	}
 	wg.Wait()
-	fmt.Printf("{\"cases\":%d,\"chunks\":%d,\"probes\":%d,\"probes_on_recycled\":%d,\"dirty_probes\":%d,\"probe_fallback_next_conn\":%d,\"mutators\":%d}\n",
-		len(all), n, st.probes, st.recycled, st.dirty, st.fallback, len(table))
+	fmt.Printf("{\"cases\":%d,\"chunks\":%d,\"probes\":%d,\"probes_on_recycled\":%d,\"dirty_probes\":%d,\"probe_fallback_next_conn\":%d,\"hangs\":%d,\"mutators\":%d}\n",
+		len(all), n, st.probes, st.recycled, st.dirty, st.fallback, st.hangs, len(table))
 }
